@@ -72,6 +72,12 @@ func runC18(c *Ctx) {
 	reach := reachableFuncs(c, roots, "github.com/seekerror/logw", "github.com/golang/glog")
 	r.Infof("C18: %d roots, %d reachable functions", len(roots), len(reach))
 	c.guard("R18-fork", func() { c18Fork(c) })
+	// ... and a fork really is private: Fork unshares everything push/pop mutate in place (rule of C08, re-decided here)
+	c.guard("R18-fork", func() {
+		if g := newGameModel(c, "R18-fork"); g != nil {
+			r.WithAlias("R08-fork", "R18-fork", func() { c08Fork(c, g) })
+		}
+	})
 	c.guard("R18-sources", func() { c18Sources(c, reach) })
 	c.guard("R18-state", func() { c18State(c, reach) })
 	c.guard("R18-hashfree", func() {
@@ -387,7 +393,7 @@ func c18State(c *Ctx, reach map[*ssa.Function][]*ssa.Function) {
 			for _, b := range hook.Blocks {
 				for _, ins := range b.Instrs {
 					if call, ok := ins.(ssa.CallInstruction); ok {
-						if call.Common().StaticCallee() == reset {
+						if cal := call.Common().StaticCallee(); cal == reset || resetsOnEveryPath(cal, reset, hook) {
 							resetCall = ins
 						}
 						if call.Common().IsInvoke() && call.Common().Method.Name() == "Search" {
@@ -686,4 +692,29 @@ func freshAtCallers(c *Ctx, reach map[*ssa.Function][]*ssa.Function, fn *ssa.Fun
 		}
 	}
 	return n > 0
+}
+
+// resetsOnEveryPath: h is a helper of the wrapper's package that calls reset on every path to its returns
+// (e.g. a constructor that creates the evaluator and initialises it).
+func resetsOnEveryPath(h, reset, hook *ssa.Function) bool {
+	if h == nil || h.Blocks == nil || h.Pkg != hook.Pkg || h == hook {
+		return false
+	}
+	var rc ssa.Instruction
+	for _, b := range h.Blocks {
+		for _, ins := range b.Instrs {
+			if call, ok := ins.(ssa.CallInstruction); ok && call.Common().StaticCallee() == reset {
+				rc = ins
+			}
+		}
+	}
+	if rc == nil {
+		return false
+	}
+	for _, b := range h.Blocks {
+		if ret, ok := b.Instrs[len(b.Instrs)-1].(*ssa.Return); ok && !instrDominates(rc, ret) {
+			return false
+		}
+	}
+	return true
 }
